@@ -163,11 +163,11 @@ def run():
     for q in sp.QUIRKS:
         d = sp.decode_fstring_text(q) if q.startswith("f") else (sp.decode_raw(q) if q.startswith("r") else sp.decode_quoted(q))
         lits.append((q, d, "string:quirk"))
-    nums = sp.number_cases(ck.rng, ck.n(40, 400))
+    nums = sp.number_cases(ck.rng, ck.n(40, 400), rows)
     for src, exp in nums:
         lits.append((src, exp, "number"))
     for src in sp.EXTREME:
-        lits.append((src, ("real", Fraction(src.replace("_", "")) if "e" not in src else Fraction(int(src.split("e")[0])) * Fraction(10) ** min(int(src.split("e")[1]), 5000)), "number:extreme"))
+        lits.append((src, ("real", Fraction(src.replace("_", "")) if "e" not in src else Fraction(int(src.split("e")[0])) * Fraction(10) ** min(int(src.split("e")[1]), 3000)), "number:extreme"))
     dates = sp.date_cases(ck.rng, ck.n(40, 300))
     for src, kind, exp in dates:
         lits.append((src, (kind, exp), "date"))
@@ -249,7 +249,7 @@ def run():
                 continue
             for tgt in ("sql.sqlite", "sql.generic"):
                 progs.append(("from t | select {v = %s}" % src, tgt, ("text", value), {"lit": src, "kind": kind, "value": value, "skeleton": "select"}))
-            if i % 3 == 0:
+            if i % 3 == 0 and not src.startswith("f"):      # an f-string is an expression, not a literal: relation literals reject it by design
                 progs.append(("from [{v = %s}]" % src, "sql.sqlite", ("text", value), {"lit": src, "kind": kind, "value": value, "skeleton": "array"}))
             if i % 3 == 1 and not src.startswith("f"):
                 progs.append(("from u | filter c == %s | select {v = c}" % src, "sql.sqlite", ("text", value), {"lit": src, "kind": kind, "value": value, "skeleton": "filter"}))
@@ -258,7 +258,7 @@ def run():
         elif kind.startswith("number"):
             tag, exp = pv
             for tgt in ("sql.sqlite", "sql.generic"):
-                progs.append(("from t | select {v = %s}" % src, tgt, (tag, exp), {"lit": src, "kind": kind, "numval": exp, "skeleton": "select"}))
+                progs.append(("from t | select {v = %s}" % src, tgt, (tag, exp), {"lit": src, "kind": kind, "overflow": inf_spelling(exp), "skeleton": "select"}))
         elif kind == "date":
             progs.append(("from t | select {v = %s}" % src, "sql.sqlite", ("text", pv[1]), {"lit": src, "kind": kind, "skeleton": "select"}))
         else:
@@ -280,16 +280,14 @@ def run():
     def cl_e2e(case):
         if case.get("kind", "").startswith("string"):
             return "F6-quote-pairs-not-doubled" if f6_value(case.get("value", "")) else None
-        if case.get("kind", "").startswith("number") and inf_spelling(case.get("numval")):
+        if case.get("kind", "").startswith("number") and case.get("overflow"):
             return "F14-float-overflow-inf"
         return None
     for i, (p, a) in enumerate(zip(progs, comp)):
         src, tgt, (etag, exp), meta = p
         ck.count("e2e-sqlite", src + "|" + tgt)
         ck.stat("e2e-sqlite", meta["kind"].split(":")[0] + "/" + meta["skeleton"])
-        case = dict(meta, src=src, target=tgt, expected=str(exp))
-        if "numval" in case:
-            case["numval"] = meta["numval"]
+        case = dict(meta, src=src, target=tgt, expected=(">= 2^1024" if meta.get("overflow") else str(exp)))
         if "ok" not in a:
             case["compile"] = a
             ck.disagreement("literal program does not compile: %s" % src, case, cl_e2e)
